@@ -132,6 +132,13 @@ func (ex *Exec) execRangeSym(s *ast.RangeStmt, st *State, label string, sv *SymS
 	pre := func(bs *State) {
 		k := ex.ts.Fresh("range.idx", BVSort(64))
 		ex.assume(bs, ex.ts.And(ex.ts.BVCmp(OpBVSle, ex.ts.BV(0, 64), k), ex.ts.BVCmp(OpBVSlt, k, sv.Len)))
+		// instantiate the universally quantified facts at the index of this iteration
+		nf := len(ex.facts)
+		for _, f := range ex.facts[:nf] {
+			for _, inst := range ex.ts.Instances(f, k) {
+				ex.facts = append(ex.facts, inst)
+			}
+		}
 		if kobj != nil {
 			bs.store[ex.cur().env.Lookup(kobj)] = k
 		}
